@@ -9,6 +9,8 @@ does hold for `.current`.  Helper lemmas live in `Nitime/Lemmas/C02.lean`.
 import Nitime.Model.C02
 import Nitime.Lemmas.F64
 import Nitime.Lemmas.C02
+import Nitime.Lemmas.C02Heap
+import Nitime.Lemmas.C02Series
 
 namespace Nitime.C02.Props
 open Nitime Nitime.C02 Nitime.Generated
@@ -381,6 +383,120 @@ theorem same_sampling_within_one (u : TimeUnit) (x : Rat) (hx : 0 < x)
   have : |toPs u (.flt x) - toPs u (.flt x')| < 2 := by exact_mod_cast hlt
   omega
 
+/-- `same_sampling`, EVERY positive binary64 interval and every unit (no bound on the period; covers
+the non-whole intervals and the periods in [2⁴⁸, 2⁵³) and beyond): the interval stored for `x` and
+the interval stored for the rate that `x` reports differ by at most `3/2 + (12·P + 7)·2⁻⁵³`
+picoseconds, `P = 10¹²/rate` — i.e. by at most one picosecond plus the binary64 resolution of the
+rate (two integers that differ by less than 2 differ by at most 1 as long as `P ≤ 2⁴⁸`:
+`same_sampling_within_one`) -/
+theorem same_sampling_any_period (u : TimeUnit) (x : Rat) (hx : 0 < x) :
+    ∃ x', intervalOfRate .intended u (frequency (F64.fdiv 1 x) u) = .ok x' ∧
+      |((toPs u (.flt x) : Int) : Rat) - ((toPs u (.flt x') : Int) : Rat)|
+        ≤ 3 / 2 + (12 * (10 ^ 12 / frequency (F64.fdiv 1 x) u) + 7) / 2 ^ 53 := by
+  obtain ⟨hpos, c1⟩ := interval_rate_close u x hx
+  obtain ⟨x', ex', c2⟩ := rate_interval_close u _ hpos
+  refine ⟨x', ex', ?_⟩
+  generalize (10 : Rat) ^ 12 / frequency (F64.fdiv 1 x) u = P at *
+  have e : ((toPs u (.flt x) : Int) : Rat) - ((toPs u (.flt x') : Int) : Rat)
+      = (((toPs u (.flt x) : Int) : Rat) - P) - (((toPs u (.flt x') : Int) : Rat) - P) := by ring
+  rw [e]
+  have := abs_sub (((toPs u (.flt x) : Int) : Rat) - P) (((toPs u (.flt x') : Int) : Rat) - P)
+  have e2 : 3 / 2 + (12 * P + 7) / 2 ^ 53 = (1 / 2 + 5 * P / 2 ^ 53) + (1 + 7 * (P + 1) / 2 ^ 53) := by ring
+  rw [e2]
+  linarith
+
+/-! ### the series' own interval and rate; intervals given as time objects -/
+
+/-- series, interval given as a bare binary64 number `x` of the series' unit (any unit): the series'
+own `sampling_interval` is the interval of its time axis, and its `sampling_rate` describes it —
+`|Δ − 10¹²/rate| ≤ 1/2 + 5·(10¹²/rate)·2⁻⁵³`, below 1 ps while the period is at most 2⁴⁹ ps -/
+theorem series_rate_interval_path {n : Nat} {t0 dur : Option TArg} {x : Rat} {u : TimeUnit} {sr : Series}
+    (h : mkSeries .intended n t0 (some (.num (.flt x))) none dur (.ok u) = .ok sr) (hx : 0 < x) :
+    sr.time.dt = sr.dt ∧ 0 < sr.rate ∧
+    |(sr.dt : Rat) - 10 ^ 12 / sr.rate| ≤ 1 / 2 + 5 * (10 ^ 12 / sr.rate) / 2 ^ 53 ∧
+    (10 ^ 12 / sr.rate ≤ 2 ^ 49 → |(sr.dt : Rat) - 10 ^ 12 / sr.rate| < 1) := by
+  obtain ⟨_, _, hdt, _, _⟩ := len_eq_data h
+  obtain ⟨uo, ivr, hz, huo, eu, hd, e1, e2, _⟩ := mkSeries_attrs h
+  simp only [checkUnit, Except.ok.injEq] at huo
+  subst huo
+  simp only [inferUnit] at eu
+  rw [eu] at hd e1
+  have hx0 : numToF (.flt x) ≠ 0 := by simp [numToF, hx.ne']
+  simp only [deriveIntervalRate, hx0, if_false, Except.ok.injEq, Prod.mk.injEq] at hd
+  obtain ⟨rfl, rfl⟩ := hd
+  obtain ⟨c1, c2⟩ := interval_rate_close u x hx
+  simp only [targPs] at e1
+  rw [e1, e2]
+  simp only [numToF]
+  refine ⟨hdt.trans e1, c1, c2, fun hP => lt_of_le_of_lt c2 ?_⟩
+  have : 5 * (10 ^ 12 / frequency (F64.fdiv 1 x) u) / 2 ^ 53 ≤ 5 * 2 ^ 49 / 2 ^ 53 := by
+    apply div_le_div_of_nonneg_right _ (by positivity)
+    linarith
+  norm_num at this ⊢
+  linarith
+
+/-- series, rate given as a `Frequency` object (e.g. another series' `sampling_rate`): the series
+reports that rate and its interval (= the interval of its time axis) is within one picosecond, plus
+binary64 resolution, of its period -/
+theorem series_rate_rate_path {n : Nat} {t0 dur : Option TArg} {hz : Rat} {u : TimeUnit} {sr : Series}
+    (h : mkSeries .intended n t0 none (some (.freq hz)) dur (.ok u) = .ok sr) (hhz : 0 < hz) :
+    sr.time.dt = sr.dt ∧ sr.rate = hz ∧
+    |(sr.dt : Rat) - 10 ^ 12 / sr.rate| ≤ 1 + 7 * (10 ^ 12 / sr.rate + 1) / 2 ^ 53 := by
+  obtain ⟨_, _, hdt, _, _⟩ := len_eq_data h
+  obtain ⟨uo, ivr, hz', huo, eu, hd, e1, e2, _⟩ := mkSeries_attrs h
+  simp only [checkUnit, Except.ok.injEq] at huo
+  subst huo
+  simp only [inferUnit] at eu
+  rw [eu] at hd e1
+  obtain ⟨x', ex', c⟩ := rate_interval_close u hz hhz
+  simp only [deriveIntervalRate, ex', Except.ok.injEq, Prod.mk.injEq] at hd
+  obtain ⟨rfl, rfl⟩ := hd
+  simp only [targPs] at e1
+  rw [e1, e2]
+  exact ⟨hdt.trans e1, rfl, c⟩
+
+/-- series, interval given as a TIME OBJECT of `ps` picoseconds with ANY display unit `iu`, the
+series in ANY unit (given, or inferred): the stored interval is exactly `ps` (also on the time axis)
+and the reported rate describes it up to binary64 resolution,
+`|ps − 10¹²/rate| ≤ (5/2·ps + 7/2·10¹²/rate)·2⁻⁵³` (< 1 ps up to 2⁵⁰ ps) — the units of the interval
+object and of the series play no role -/
+theorem series_rate_interval_object {n : Nat} {t0 dur : Option TArg} {ps : Int} {iu : TimeUnit} {u : UArg}
+    {sr : Series} (h : mkSeries .intended n t0 (some (.tobj ps iu)) none dur u = .ok sr) (hps : 0 < ps) :
+    sr.dt = ps ∧ sr.time.dt = ps ∧ 0 < sr.rate ∧
+    |(ps : Rat) - 10 ^ 12 / sr.rate| ≤ ((5 / 2) * (ps : Rat) + (7 / 2) * (10 ^ 12 / sr.rate)) / 2 ^ 53 := by
+  obtain ⟨_, _, hdt, _, _⟩ := len_eq_data h
+  obtain ⟨uo, ivr, hz, _, _, hd, e1, e2, _⟩ := mkSeries_attrs h
+  obtain ⟨hne, rpos, c⟩ := tobj_rate_close iu ps hps
+  simp only [deriveIntervalRate, hne, if_false, Except.ok.injEq, Prod.mk.injEq] at hd
+  obtain ⟨rfl, rfl⟩ := hd
+  simp only [targPs] at e1
+  rw [e2]
+  exact ⟨e1, hdt.trans e1, rpos, c⟩
+
+/-- the same for an axis: interval given as a time object, any unit argument (also none: inferred) -/
+theorem attrs_rate_interval_object {s : Spec} {a : Axis} {ps : Int} {iu : TimeUnit}
+    (h : mkUniform .intended s = .ok a) (hd : s.data = none) (hi : s.interval = some (.tobj ps iu))
+    (hr : s.rate = none) (hps : 0 < ps) :
+    a.dt = ps ∧ 0 < a.rate ∧
+    |(ps : Rat) - 10 ^ 12 / a.rate| ≤ ((5 / 2) * (ps : Rat) + (7 / 2) * (10 ^ 12 / a.rate)) / 2 ^ 53 := by
+  obtain ⟨_, r, hres, hb⟩ := mkUniform_inv h
+  obtain ⟨_, _, hdt, hrate, _, _, _⟩ := build_intended hb
+  obtain ⟨uo, _, _, _, iv, hz, hder, _, edt, erate⟩ := resolve_after_inherit (inherit_none hd) hres
+  obtain ⟨hne, rpos, c⟩ := tobj_rate_close iu ps hps
+  rw [hi, hr] at hder
+  simp only [deriveIntervalRate, hne, if_false, Except.ok.injEq, Prod.mk.injEq] at hder
+  obtain ⟨rfl, rfl⟩ := hder
+  simp only [targPs] at edt
+  rw [hrate, erate]
+  exact ⟨hdt.trans edt, rpos, c⟩
+
+/-- non-vacuity (the seeded-change class "rate of an interval object scaled by the wrong unit"): a
+5 ms interval object on a series in seconds — interval 5·10⁹ ps, rate exactly 200 Hz -/
+example :
+    (mkSeries .intended 4 none (some (.tobj 5000000000 .ms)) none none (.ok .s)).toOption.map
+      (fun sr => (sr.dt, sr.rate, sr.time.dt, sr.time.n)) = some (5000000000, 200, 5000000000, 4) := by
+  decide +kernel
+
 /-- int64: inside the property's domain (|t0| and the extent n·Δ below 2⁶²) nothing the constructor
 lays out wraps: every sample, the duration and the end of the axis are below 2⁶³ in magnitude -/
 theorem fits62_no_wrap_axis (a : Axis) (hdt : 0 < a.dt) (hdur : a.dur = (a.n : Int) * a.dt)
@@ -430,6 +546,241 @@ theorem rebuilt_axis_identical (a : Axis) (hdt : 0 < a.dt) (hdur : a.dur = (a.n 
     simp [mkUniform, checkTspec, tspecOf, hv3, resolve, inherit, w0, w1, w2, w3, checkUnit, inferUnit,
       deriveIntervalRate, durationPs, targPs, build, hnot, bind, Except.bind, pure, Except.pure]
 
+
+/-! ### two live objects: an axis built FROM another object shares no mutable state with it
+
+Objects are entries of a store (`Heap`); constructors allocate a new entry, in-place operators
+(`+= -= *= /=` with scalar or ramp operands, `__setitem__`) rewrite the entry they are applied to.
+`runH` runs a program and skips commands that raise. -/
+
+/-- frame rule, any configuration: an axis that no in-place operator of the program is applied to
+is at the end exactly what it was at the start — whatever is done to any other object, and whatever
+is constructed from it in between -/
+theorem inplace_touches_only_its_object (cfg : HCfg) (h : Heap) (cs : List Cmd) (j : Nat)
+    (hj : j < h.axes.length) (hc : ∀ c ∈ cs, c.target ≠ some j) :
+    (runH cfg h cs).axes[j]? = h.axes[j]? := runH_axes cfg cs h j hj hc
+
+/-- `UniformTime(axis[, time_unit][, length])` is a NEW object (its id is not the source's, nor any
+existing one), its value is what `mkUniform` says (for a well-formed source and nothing else: the
+source's own `(t0, Δ, n)`, see `rebuilt_axis_identical`), and afterwards the two are independent:
+for EVERY program that applies no operator to the product — in particular every sequence of
+in-place operators on the source — the product is unchanged, and for every program that applies no
+operator to the source, the source is unchanged -/
+theorem rebuilt_axis_independent {h h' : Heap} {src : Nat} {u : UArg} {l : Option Nat} {r : Res}
+    (he : exec hIntended h (.rebuild src u l) = .ok (h', r)) :
+    ∃ d a, h.axes[src]? = some d ∧
+      mkUniform .intended { data := some d, unit := u, length := l } = .ok a ∧
+      r = .axis h.axes.length ∧ src < h.axes.length ∧
+      h'.axes[h.axes.length]? = some a ∧ h'.axes[src]? = some d ∧
+      (∀ cs, (∀ c ∈ cs, c.target ≠ some h.axes.length) →
+        (runH hIntended h' cs).axes[h.axes.length]? = some a) ∧
+      (∀ cs, (∀ c ∈ cs, c.target ≠ some src) → (runH hIntended h' cs).axes[src]? = some d) := by
+  simp only [exec] at he
+  split at he
+  · cases he
+  · rename_i d hd
+    split at he
+    · cases he
+    · rename_i a ha
+      simp only [hIntended, Bool.false_and, Bool.false_eq_true, ↓reduceIte, Heap.allocAxis,
+        Except.ok.injEq, Prod.mk.injEq] at he
+      obtain ⟨rfl, rfl⟩ := he
+      have hlt : (src : Nat) < h.axes.length := (List.getElem?_eq_some_iff.mp hd).1
+      have hp : (h.axes ++ [a])[h.axes.length]? = some a := by simp
+      have hs : (h.axes ++ [a])[src]? = some d := by rw [List.getElem?_append_left hlt]; exact hd
+      refine ⟨d, a, hd, ha, rfl, hlt, hp, hs, fun cs hc => ?_, fun cs hc => ?_⟩
+      · rw [runH_axes _ cs _ h.axes.length (by simp) hc]; exact hp
+      · rw [runH_axes _ cs _ src (by simp; omega) hc]; exact hs
+
+/-- the same for `axis.copy()` -/
+theorem copied_axis_independent {h h' : Heap} {src : Nat} {r : Res}
+    (he : exec hIntended h (.copy src) = .ok (h', r)) :
+    ∃ d, h.axes[src]? = some d ∧ r = .axis h.axes.length ∧ src < h.axes.length ∧
+      h'.axes[h.axes.length]? = some d ∧ h'.axes[src]? = some d ∧
+      (∀ cs, (∀ c ∈ cs, c.target ≠ some h.axes.length) →
+        (runH hIntended h' cs).axes[h.axes.length]? = some d) ∧
+      (∀ cs, (∀ c ∈ cs, c.target ≠ some src) → (runH hIntended h' cs).axes[src]? = some d) := by
+  simp only [exec] at he
+  split at he
+  · cases he
+  · rename_i d hd
+    simp only [Heap.allocAxis, Except.ok.injEq, Prod.mk.injEq] at he
+    obtain ⟨rfl, rfl⟩ := he
+    have hlt : (src : Nat) < h.axes.length := (List.getElem?_eq_some_iff.mp hd).1
+    have hp : (h.axes ++ [d])[h.axes.length]? = some d := by simp
+    have hs : (h.axes ++ [d])[src]? = some d := by rw [List.getElem?_append_left hlt]; exact hd
+    refine ⟨d, hd, rfl, hlt, hp, hs, fun cs hc => ?_, fun cs hc => ?_⟩
+    · rw [runH_axes _ cs _ h.axes.length (by simp) hc]; exact hp
+    · rw [runH_axes _ cs _ src (by simp; omega) hc]; exact hs
+
+/-- `TimeSeries(data, time=axis)`: whatever program `cs1` runs between the construction and the first
+read of `.time` (any in-place operators on the axis it was given, on anything else, further
+constructions — only this series' `.time` is not read), the axis then read is a NEW object with
+exactly `m = data.shape[-1]` samples, starting and stepping as the SOURCE DID WHEN THE SERIES WAS
+BUILT, its duration covering the `m` intervals; and for every later program `cs2` that applies no
+operator to that axis itself (so: every operator sequence on the source or on any other series'
+axis) it stays exactly that, the series keeps holding that same object, and the series' own
+`t0` / interval agree with it -/
+theorem series_axis_independent {h h1 : Heap} {src : Nat} {m : Nat} {u : UArg} {r : Res}
+    (he : exec hIntended h (.series src m u) = .ok (h1, r)) :
+    ∃ d, h.axes[src]? = some d ∧ r = .series h.series.length ∧
+    ∀ cs1, (∀ c ∈ cs1, c ≠ .time h.series.length ∧ c ≠ .seriesCopy h.series.length) →
+    ∀ h3 r', exec hIntended (runH hIntended h1 cs1) (.time h.series.length) = .ok (h3, r') →
+      ∃ p a, r' = .axis p ∧ p = (runH hIntended h1 cs1).axes.length ∧ src < p ∧
+        h3.axes[p]? = some a ∧ a.n = m ∧ a.t0 = d.t0 ∧ a.dt = d.dt ∧ a.dur = (m : Int) * d.dt ∧
+        ∀ cs2, (∀ c ∈ cs2, c.target ≠ some p) →
+          (runH hIntended h3 cs2).axes[p]? = some a ∧
+          ∃ s, (runH hIntended h3 cs2).series[h.series.length]? = some s ∧ s.time = some p ∧
+            s.t0 = a.t0 ∧ s.dt = a.dt ∧ s.n = a.n := by
+  simp only [exec] at he
+  split at he
+  · cases he
+  · rename_i d hd
+    obtain ⟨hax, hr, sr, s, hsr, hser, e0, edt, _, eu, en, etime⟩ := newSeries_spec he
+    have hlt : (src : Nat) < h.axes.length := (List.getElem?_eq_some_iff.mp hd).1
+    refine ⟨d, hd, hr, fun cs1 hc1 h3 r' ht => ?_⟩
+    have hs1 : h1.series[h.series.length]? = some s := by rw [hser]; simp
+    have hs2 := runH_series_unread hIntended cs1 h1 hs1 hc1
+    have hlen := runH_length hIntended cs1 h1
+    rw [hax] at hlen
+    generalize runH hIntended h1 cs1 = h2 at *
+    simp only [exec] at ht
+    split at ht
+    · cases ht
+    · rename_i h3' p hrt
+      simp only [Except.ok.injEq, Prod.mk.injEq] at ht
+      obtain ⟨rfl, rfl⟩ := ht
+      obtain ⟨s', hs', hcase⟩ := readTime_spec hrt
+      rw [hs2] at hs'
+      cases hs'
+      rcases hcase with ⟨hsome, _⟩ | ⟨_, rfl, a, ha, hax3, hser3⟩
+      · rw [etime rfl] at hsome; cases hsome
+      · obtain ⟨htime, t0eq, dteq⟩ := mkSeriesFromTime_time hsr
+        have haeq : a = sr.time := by
+          have : seriesAxis s = .ok sr.time := by
+            unfold seriesAxis; rw [e0, edt, eu, en]; exact htime
+          rw [this] at ha; cases ha; rfl
+        obtain ⟨i1, i2, i3, _, i5⟩ := mkSeriesFromTime_inv hsr
+        obtain ⟨_, hdur, _⟩ := attrs_describe_axis htime
+        have hp3 : h3'.axes[h2.axes.length]? = some a := by rw [hax3]; simp
+        have hsid : h.series.length < h2.series.length := by
+          by_contra hge
+          rw [List.getElem?_eq_none (by omega)] at hs2
+          cases hs2
+        have hs3 : h3'.series[h.series.length]? = some { s with time := some h2.axes.length } := by
+          rw [hser3]; simp [hsid]
+        refine ⟨h2.axes.length, a, rfl, rfl, by omega, hp3, by rw [haeq]; exact i1,
+          by rw [haeq]; exact i5 rfl, by rw [haeq]; exact i2,
+          by rw [haeq, hdur, i1, i2], fun cs2 hc2 => ⟨?_, ?_⟩⟩
+        · rw [runH_axes _ cs2 _ h2.axes.length (by rw [hax3]; simp) hc2]; exact hp3
+        · refine ⟨_, runH_series_cached hIntended cs2 h3' hs3 rfl, rfl, ?_, ?_, ?_⟩
+          · show s.t0 = a.t0
+            rw [e0, t0eq, haeq, i5 rfl]
+          · show s.dt = a.dt
+            rw [edt, dteq, haeq, i2]
+          · show s.n = a.n
+            rw [en, haeq, i1]
+
+/-- an 8-sample, 0.5 s axis starting at −1 s (2 Hz) -/
+def axHalf : Axis :=
+  { t0 := -1000000000000, dt := 500000000000, n := 8, dur := 4000000000000, rate := 2, unit := .s }
+
+/-- the caller's program: a series on its axis, read its time, then `axis += 3` -/
+def progShift : List Cmd := [.series 0 8 (.ok .s), .time 0, .inplace 0 (.addS .int 3)]
+
+/-- the class of change "the series stores the axis object it was given" (`seriesKeepsAxis`): the
+series' `time` IS the caller's object 0, and after the caller's `axis += 3` it starts at 2 s while the
+series still says −1 s.  Without the short-cut the series' axis is object 1 and still starts at −1 s. -/
+theorem series_keeps_axis_counterexample :
+    let bad := runH ⟨true, false⟩ { axes := [axHalf], series := [] } progShift
+    let good := runH hIntended { axes := [axHalf], series := [] } progShift
+    (bad.series[0]?.bind (·.time) = some 0 ∧ bad.series[0]?.map (·.t0) = some (-1000000000000) ∧
+      bad.axes[0]?.map (·.t0) = some 2000000000000 ∧ bad.axes.length = 1) ∧
+    (good.series[0]?.bind (·.time) = some 1 ∧ good.axes[1]?.map (·.t0) = some (-1000000000000) ∧
+      good.axes[0]?.map (·.t0) = some 2000000000000) := by
+  decide +kernel
+
+/-- the class of change "`UniformTime(axis)` hands back the axis it was given"
+(`rebuildReturnsSource`): `b = UniformTime(a); a *= 2` doubles `b`'s interval too (it is `a`) -/
+theorem rebuild_returns_source_counterexample :
+    (exec ⟨false, true⟩ { axes := [axHalf], series := [] } (.rebuild 0 .none none)).toOption.map (·.2)
+      = some (.axis 0) ∧
+    (exec hIntended { axes := [axHalf], series := [] } (.rebuild 0 .none none)).toOption.map (·.2)
+      = some (.axis 1) ∧
+    ((runH hIntended { axes := [axHalf], series := [] } [.rebuild 0 .none none, .inplace 0 (.mul 2)]).axes.map
+      (·.dt)) = [1000000000000, 500000000000] := by
+  decide +kernel
+
+/-- non-vacuity: the programs above do run (nothing is skipped), and every in-place operator is
+accepted on this axis at least once -/
+example :
+    ((runH hIntended { axes := [axHalf], series := [] }
+      [.rebuild 0 .none none, .inplace 0 (.addR .time 5 7 8), .inplace 1 (.subR .int 1 0 8),
+       .inplace 0 (.subS .time 12), .inplace 1 (.div 4), .series 1 8 .none, .seriesCopy 0,
+       .time 1]).axes.map fun a => (a.t0, a.dt, a.n)) =
+      [(-999999999995 - 12, 500000000007, 8), (-500000000000, 125000000000, 8),
+       (-500000000000, 125000000000, 8), (-500000000000, 125000000000, 8)] := by
+  decide +kernel
+
+/-- interval / rate selection inside the inheritance block, duration pattern: an axis rebuilt from a
+well-formed axis with a new `duration` (a bare number of the source's unit or a time object) keeps the
+source's start, exact interval, rate and unit; its samples are the multiples of that interval before
+the new duration, and the reported duration covers exactly those -/
+theorem rebuilt_axis_with_duration (a : Axis) (D : TArg) (hdt : 0 < a.dt) :
+    mkUniform .intended { data := some a, duration := some D }
+      = .ok { a with n := countBefore (targPs a.unit D) a.dt,
+                     dur := (countBefore (targPs a.unit D) a.dt : Int) * a.dt } ∧
+    ∀ i : Nat, i < countBefore (targPs a.unit D) a.dt ↔ (i : Int) * a.dt < targPs a.unit D := by
+  have hv4 : [false, false, false, true] ∈ validTspecs true := by decide
+  obtain ⟨w0, w1, w2, w3, w4⟩ := wd_table
+  have hnot : ¬ a.dt ≤ 0 := by omega
+  refine ⟨?_, fun i => countBefore_spec _ _ hdt i⟩
+  simp [mkUniform, checkTspec, tspecOf, hv4, resolve, inherit, w0, w1, w2, w3, w4, checkUnit, inferUnit,
+    deriveIntervalRate, durationPs, targPs, build, hnot, bind, Except.bind, pure, Except.pure]
+
+/-- the in-place operators keep an axis well-formed: the number of samples and the unit stay, the
+reported duration covers exactly the `n` new intervals, and the rate is the one `_set_sampling`
+derives from the new interval (so samples `t0 + i·Δ`, `samples_affine`, are again described by the
+attributes) -/
+theorem inplace_keeps_axis_well_formed {a a' : Axis} {op : IOp} (h : applyIOp a op = .ok a') :
+    a'.n = a.n ∧ a'.unit = a.unit ∧ a'.dur = (a'.n : Int) * a'.dt ∧
+    (a'.dt ≠ 0 → a'.rate = rateOfInterval a'.unit a'.dt) := by
+  have key : ∀ t0 dt : Int, (setSampling a t0 dt).n = a.n ∧ (setSampling a t0 dt).unit = a.unit ∧
+      (setSampling a t0 dt).dur = ((setSampling a t0 dt).n : Int) * (setSampling a t0 dt).dt ∧
+      ((setSampling a t0 dt).dt ≠ 0 →
+        (setSampling a t0 dt).rate = rateOfInterval (setSampling a t0 dt).unit (setSampling a t0 dt).dt) := by
+    intro t0 dt
+    refine ⟨rfl, rfl, rfl, fun hne => ?_⟩
+    simp only [setSampling] at hne ⊢
+    simp [hne]
+  have ramp : ∀ sgn v0 d : Int, ∀ cnt : Nat, rampOp a sgn v0 d cnt = .ok a' →
+      a'.n = a.n ∧ a'.unit = a.unit ∧ a'.dur = (a'.n : Int) * a'.dt ∧
+      (a'.dt ≠ 0 → a'.rate = rateOfInterval a'.unit a'.dt) := by
+    intro sgn v0 d cnt hr
+    unfold rampOp at hr
+    split at hr
+    · cases hr
+    · split at hr
+      · cases hr; exact key _ _
+      · split at hr
+        · cases hr
+        · cases hr; exact key _ _
+  cases op with
+  | addS k v => simp only [applyIOp, Except.ok.injEq] at h; subst h; exact key _ _
+  | subS k v => simp only [applyIOp, Except.ok.injEq] at h; subst h; exact key _ _
+  | addR k v0 d cnt => exact ramp _ _ _ _ h
+  | subR k v0 d cnt => exact ramp _ _ _ _ h
+  | mul k =>
+    simp only [applyIOp] at h
+    split at h
+    · cases h
+    · cases h; exact key _ _
+  | div k =>
+    simp only [applyIOp] at h
+    split at h
+    · cases h
+    · cases h; exact key _ _
+  | setitem => cases h
 
 /-- a 3-sample axis with interval 2⁵³+1 ps (not a binary64 value), with the rate it reports -/
 def axBig : Axis :=
@@ -517,6 +868,12 @@ example :
     (mkUniform .intended { data := some axMs, rate := some (.num (.int 4000)) }).toOption.map
       (fun a => (a.t0, a.dt, a.n)) = some (3000000000, 250000000, 80) ∧
     mkUniform .intended { data := some axMs } = .ok axMs := by
+  decide +kernel
+
+/-- non-vacuity of `rebuilt_axis_with_duration`: 7 ms of the 2 ms axis are 4 samples covering 8 ms -/
+example :
+    (mkUniform .intended { data := some axMs, duration := some (.num (.int 7)) }).toOption.map
+      (fun a => (a.t0, a.dt, a.n, a.dur)) = some (3000000000, 2000000000, 4, 8000000000) := by
   decide +kernel
 
 /-- today: a duration given as a time object with a length is read as a bare number of the unit -/
